@@ -44,3 +44,23 @@ Theorem C10_registry_sound : forall (ctx : Type) (addr : nat -> nat) (h : list (
   get ctx addr (run ctx addr (init ctx) h) o = Some c -> g ctx (run ctx addr (init ctx) h) o = Some c.
 Proof. exact registry_sound. Qed.
 Print Assumptions C10_registry_sound.
+
+(* chain construction, over the REGENERATED scopes_for_owner / _collect_scopes_from_layers of resolution.py (tools/scopes2v.py, Dyn/ScopesProps.v):
+   the order in which the resolver meets the scopes of an attribute-set owner — its own values first when it is a rec set, then its let layers
+   from the innermost to the outermost, then what it inherited — for every owner; and the chain of the traversal model above is that chain *)
+From Dyn Require Import ScopesGen ScopesProps.
+Theorem C10_search_order : forall S (o : owner S),
+  rev (scopes_for_owner_set S o) =
+  (if o_recursive S o then [o_self S o] else []) ++ rev (map (layer_scope S) (filter (layer_nonempty S) (o_stack S o)))
+  ++ rev (opt_one S (o_scope S o)) ++ rev (opt_list S (o_inherited S o)).
+Proof. exact search_order. Qed.
+Print Assumptions C10_search_order.
+Theorem C10_inner_layer_first : forall S (o : owner S) pre a mid b post,
+  filter (layer_nonempty S) (o_stack S o) = pre ++ a :: mid ++ b :: post ->
+  exists u v w, rev (scopes_for_owner_set S o) = u ++ layer_scope S b :: v ++ layer_scope S a :: w.
+Proof. exact inner_layer_first. Qed.
+Print Assumptions C10_inner_layer_first.
+Theorem C10_model_chain_is_source_chain : forall t r sid s,
+  tget t sid = Some s -> snd (scopes_for_owner t r sid) = scopes_for_owner_set sref (mk_owner r sid s).
+Proof. exact model_chain_is_generated. Qed.
+Print Assumptions C10_model_chain_is_source_chain.
